@@ -97,6 +97,9 @@ def zooRet (kind : Nat) (s rem : List Nat) : RetVal × Nat :=
   -- callbacks that reject every match
   | 25 => (.optNone, 0)
   | 26 => (.boolFalse, 0)
+  -- closures that go on with the result of a helper they hand the lexer to: `|lex| h(lex) == false`, `|lex| h(lex).filter(|_| false)`
+  | 27 => (if z == 0 then .boolTrue else .boolFalse, 0)
+  | 28 => (.optNone, 0)
   | _ => (.plain, 0)
 
 /-- leaf kinds: 0 = skip leaf, 1 = unit variant, 2 = value variant -/
